@@ -203,6 +203,8 @@ class DualQuaternion:
             cj = DualQuaternion(left.real.conj(), -1 * left.dual.conj())
             vp = left * DualQuaternion.Pure(v) * cj
             return vp.dual.v
+        else:
+            raise ValueError('bad operands to dual quaternion *')
 
     def matrix(self):
         """
